@@ -4,6 +4,8 @@
 // fromRaw on a buffer that ends at a PROT_NONE guard page (no read past len).
 #include "common/harness.h"
 
+#include <memory>
+
 #include <pistache/http.h>
 #include <pistache/mime.h>
 
@@ -297,12 +299,32 @@ namespace verif
             if (a.hasQ || !a.params.empty() || a.suffix != Suffix::None)
                 rep.nontrivial_case(fnv1a("T" + a.text));
             rep.sample("parse \"" + a.text + "\"");
-            for (int how = 0; how < 2; ++how)
+            // four doors: fromString(const&), fromRaw on the guard page, the parsing constructor, and fromString(&&)
+            // whose result is then copied, the first object destroyed and its memory scribbled over before the copy is read
+            static const char* DOOR[] = { "fromString", "fromRaw[guard page]", "MediaType(text, DoParse)", "fromString(&&), copied, original destroyed" };
+            for (int how = 0; how < 4; ++how)
             {
                 try
                 {
-                    MediaType m = how == 0 ? MediaType::fromString(a.text) : MediaType::fromRaw(guard_copy(a.text), a.text.size());
-                    Verdict v   = check_parsed(a, m, how == 0 ? "fromString" : "fromRaw[guard page]");
+                    std::unique_ptr<MediaType> holder;
+                    if (how == 0)
+                        holder.reset(new MediaType(MediaType::fromString(a.text)));
+                    else if (how == 1)
+                        holder.reset(new MediaType(MediaType::fromRaw(guard_copy(a.text), a.text.size())));
+                    else if (how == 2)
+                        holder.reset(new MediaType(a.text, MediaType::DoParse));
+                    else
+                    {
+                        std::string tmp = a.text;
+                        std::unique_ptr<MediaType> first(new MediaType(MediaType::fromString(std::move(tmp))));
+                        holder.reset(new MediaType(*first));
+                        first.reset();
+                        std::vector<std::unique_ptr<MediaType>> scribble;
+                        for (int k = 0; k < 3; ++k)
+                            scribble.emplace_back(new MediaType(MediaType::fromString("application/x-scribble-over-freed-memory; q=0.3; zz=yy")));
+                    }
+                    MediaType& m = *holder;
+                    Verdict v    = check_parsed(a, m, DOOR[how]);
                     if (v.kind != Verdict::Pass)
                         return v;
                 }
